@@ -1,27 +1,12 @@
 INIT Init
 NEXT Next
 CONSTANTS
-  Keys <- K2b
-  AllowedKeys <- None
-  AllowedModes <- No
-  Forms = {"bare"}
-  IntCoefs <- None
-  DecCoefs <- None
-  InactCoefs <- None
-  MaxReac = 1
-  MaxProd = 1
-  MaxInact = 0
-  Arrows = {"->", "="}
-  Params <- P_few
-  Kws <- W_all
-  MaxLines = 1
-  Comments <- None
-  MaxComments = 0
-  PrintOpts <- O_all
-  FaultKinds <- None
+  SliceTable <- AllSlices
+  SliceNames = {"params_q"}
 INVARIANT TypeOK
 INVARIANT RepeatedSpeciesSummed
 INVARIANT InactiveNeverActive
 INVARIANT ParsePrintIdentity
+INVARIANT TextWins
 INVARIANT Emit
 CHECK_DEADLOCK FALSE
